@@ -34,6 +34,8 @@ def run(res, tier, seed, shard, nshards):
     W = H.ws()
     rng = random.Random((seed << 8) ^ shard ^ 0xC08)
     maxk = 4 if tier == "quick" else 5
+    if shard == 0:
+        crossing_closes(res, W, tier, seed)
 
     def scen():
         idx = 0
@@ -346,3 +348,86 @@ def close_timing_case(res, W, sock_to, close_to, peer):
                       case, step_call="close", peer=peer, socket_timeout=repr(sock_to))
     if not conn.client_closed:
         res.violation("transport-not-released", f"close(timeout={close_to}) sock_timeout={sock_to} peer={peer}: transport still open", case, step_call="close", via="close", prior="timing")
+
+
+def crossing_closes(res, W, tier, seed):
+    """R4 under the default thread-safe configuration: the application's close() and the reply to the server's
+    close frame (sent from a thread sitting in recv()) are both 'own initiative' - together at most one close frame.
+    Interleavings are explored at synchronisation / IO granularity (lock operations and transport calls), where the
+    library's own ordering (mark closed, then write) is what makes it hold."""
+    def scenario(write_piece):
+        def scen():
+            S = sched.CURRENT
+            w, conn, peer = H.connected_ws(timeout=2)
+            conn.write_plan = itertools.cycle([write_piece]) if write_piece else None
+            conn.deliver(R.encode(R.TEXT, b"m") + R.encode(R.CLOSE, b"\x03\xe9srv"))
+            out = {"errors": []}
+
+            def closer():
+                try:
+                    w.close(1001, b"bye", timeout=1)
+                except BaseException as e:  # noqa
+                    if isinstance(e, sched.SimAbort):
+                        raise
+                    out["errors"].append(("close", e))
+
+            def reader():
+                try:
+                    while True:
+                        w.recv()
+                        if not w.connected:
+                            return
+                except W.WebSocketException:
+                    return
+                except OSError:
+                    return
+                except BaseException as e:  # noqa
+                    if isinstance(e, sched.SimAbort):
+                        raise
+                    out["errors"].append(("recv", e))
+
+            actors = [S.spawn(closer, name="closer"), S.spawn(reader, name="reader")]
+            S.arm(line_points=False)
+            S.block(lambda: all(a.state == sched.DONE for a in actors), None, why="join")
+            out["conn"], out["peer"] = conn, peer
+            return out
+        return scen
+
+    def judge(out, S, tag):
+        frames, pos = R.decode_all(bytes(out["peer"].client_stream))
+        closes = [f for f in frames if f.opcode == R.CLOSE]
+        case = {"gen": "crossing-closes", "tag": tag, "decisions": list(S.decisions)[:200]}
+        res.case(("crossing", tag, tuple(S.decisions)), nontrivial=S.switches > 0)
+        res.count("crossing_close_schedules")
+        res.count("own_close_frames_seen", len(closes))
+        if pos != len(out["peer"].client_stream):
+            res.violation("wire-garbage", f"crossing closes {tag}: {len(out['peer'].client_stream) - pos} stray bytes on the wire", case, step_call="close")
+        if len(closes) > 1:
+            res.violation("second-own-close-frame", f"crossing closes {tag}: the client wrote {len(closes)} close frames {[c.payload for c in closes]}", case, via="threads")
+        if not out["conn"].client_closed:
+            res.violation("transport-not-released", f"crossing closes {tag}: transport still open after close() returned", case, step_call="close", via="threads", prior="crossing")
+        for who, e in out["errors"]:
+            if not isinstance(e, (W.WebSocketException, OSError)):
+                res.violation("internal-exception", f"crossing closes {tag}: {who} raised {type(e).__name__}: {e}", case, got=type(e).__name__)
+
+    for piece in (None, 3):
+        prefix, n = [], 0
+        budget = 400 if tier == "quick" else 6000
+        while prefix is not None and n < budget:
+            st = sched.DFSStrategy(prefix)
+            S = sched.Sched(strategy=st, horizon=600, watchdog=60)
+            try:
+                out = S.run(scenario(piece))
+                judge(out, S, f"dfs piece={piece}")
+            except sched.SimFailure as e:
+                res.violation("hang", f"crossing closes: {type(e).__name__}: {e}", {"gen": "crossing-closes", "decisions": list(S.decisions)[:200]}, how=type(e).__name__)
+            n += 1
+            prefix = sched.dfs_next_prefix(st.trace)
+        res.notes[f"crossing_closes_dfs_complete:piece={piece}"] = prefix is None
+        for i in range(100 if tier == "quick" else 2000):
+            S = sched.Sched(strategy=sched.RandomStrategy((seed << 16) ^ i, p_switch=0.5), horizon=600, watchdog=60)
+            try:
+                out = S.run(scenario(piece))
+                judge(out, S, f"random piece={piece}")
+            except sched.SimFailure as e:
+                res.violation("hang", f"crossing closes: {type(e).__name__}: {e}", {"gen": "crossing-closes", "decisions": list(S.decisions)[:200]}, how=type(e).__name__)
